@@ -1232,4 +1232,161 @@ theorem wrapLine_data (W : Nat) (hW : 7 < W) (L : Str) (hcl : Clean L) (hnb : st
           simp only [obsLines, dl3, flatten_map_eq_nil _ _ hclcw, flatten_map_eq_nil _ _ hclcc, hLf.2.1, hLf.2.2.1,
             hccmL, hwd]
 
+/-! ### comment cards -/
+
+theorem lstrip_blanks_cons (k : Nat) (c : Char) (y : Str) (hc : isBlankC c = false) :
+    lstrip (blanks k ++ c :: y) = c :: y := by
+  induction k with
+  | zero => simp [blanks, lstrip, List.dropWhile_cons, hc]
+  | succ j ih =>
+    have : blanks (j + 1) ++ c :: y = ' ' :: (blanks j ++ c :: y) := by simp [blanks, List.replicate_succ]
+    have hb : isBlankC ' ' = true := by decide
+    rw [this]
+    simp only [lstrip, List.dropWhile_cons, hb, if_true]
+    exact ih
+
+/-- what a comment card of the shape `blanks k ++ c :: y` contributes -/
+theorem commentLine_facts (k : Nat) (c : Char) (y : Str) (hk : k < 5) (hc : c = 'c' ∨ c = 'C')
+    (hy : y = [] ∨ ∃ y', y = ' ' :: y') :
+    isCommentCard (blanks k ++ c :: y) = true ∧ isBlankLine (blanks k ++ c :: y) = false ∧
+      cw (blanks k ++ c :: y) = [] ∧ cdl (blanks k ++ c :: y) = [] ∧ ccm (blanks k ++ c :: y) = sq y := by
+  have hcc := isCommentCard_of_shape k c y hk hc hy
+  have hcb : isBlankC c = false := by rcases hc with rfl | rfl <;> decide
+  have hcs : pyIsSpace c = false := by rcases hc with rfl | rfl <;> decide
+  refine ⟨hcc, not_fileBlank_of_mem _ c (by simp) hcs, by simp [cw, hcc], by simp [cdl, hcc], ?_⟩
+  simp only [ccm, hcc, if_true, commentText, sq_lstrip, sq_rstrip, lstrip_blanks_cons k c y hcb, List.drop_one,
+    List.tail_cons]
+
+/-- C comment cards the round trip is proved for: no chunk of the comment longer than a continuation `c ` line holds -/
+def CommentOK (W : Nat) (L : Str) : Prop := NoLongChunk W 0 ((L.takeWhile (· = ' ')).length + 2) L
+
+/-- **a wrapped comment card**: every line `_wrap_line` returns is a non-blank comment card, and together they carry
+    the text of the source comment. -/
+theorem wrapLine_comment (W : Nat) (hW : 7 < W) (L init : Str) (hcl : Clean L) (hc : isCommentCard L = true)
+    (hok : CommentOK W L) :
+    wrapLine L W init (blanks 5) ≠ [] ∧
+    (∀ x ∈ wrapLine L W init (blanks 5), isBlankLine x = false ∧ isCommentCard x = true) ∧
+    obsLines (wrapLine L W init (blanks 5)) = (cw L, cdl L, ccm L) := by
+  obtain ⟨k, c, r, hk, hcC, hL, hr⟩ := commentCard_shape L hc
+  have hcb : c ≠ ' ' := by rcases hcC with rfl | rfl <;> decide
+  have hLf := commentLine_facts k c r hk hcC hr
+  rw [← hL] at hLf
+  have hlead : (L.takeWhile (· = ' ')).length = k := by
+    rw [hL, takeWhile_blanks_cons k c r hcb, length_blanks]
+  unfold wrapLine
+  simp only [expandTabs_clean _ L hcl, isCommentLine_eq, hc, if_true, leadBlanks_eq, hlead]
+  split
+  · refine ⟨by simp, ?_, by simp [obsLines]⟩
+    intro x hx
+    simp only [List.mem_singleton] at hx
+    subst hx
+    exact ⟨hLf.2.1, hLf.1⟩
+  · have hpre : L.take (k + 1) ++ [' '] = blanks k ++ [c, ' '] := by
+      rw [hL]
+      have : (blanks k ++ c :: r).take (k + 1) = blanks k ++ [c] := by
+        rw [List.take_append, length_blanks]
+        have h1 : (blanks k).take (k + 1) = blanks k := List.take_of_length_le (by simp [blanks])
+        have h2 : k + 1 - k = 1 := by omega
+        simp [h1, h2]
+      rw [this]; simp
+    rw [hpre]
+    unfold textwrapWrap
+    rw [munge_clean _ hcl]
+    have hplen : (blanks k ++ [c, ' ']).length = k + 2 := by simp [blanks]
+    have hb : ∀ x ∈ splitChunks L, x.length ≤ W - ([] : Str).length ∧ x.length ≤ W - (blanks k ++ [c, ' ']).length := by
+      have := hok
+      simp only [CommentOK, NoLongChunk, munge_clean _ hcl, hlead] at this
+      intro x hx
+      have := this x hx
+      simp only [List.length_nil, hplen]
+      exact this
+    have hgr := wrapChunks_grouped W [] (blanks k ++ [c, ' ']) true (splitChunks L) hb
+    obtain ⟨bodies, hb1, hb2, hb3⟩ := wrapChunks_bodies W [] (blanks k ++ [c, ' ']) (by simp; omega)
+      (by rw [hplen]; omega) true (splitChunks L) (splitChunks_ne _ hcl)
+    rw [splitChunks_flatten] at hb2
+    rw [hb1] at hgr ⊢
+    cases bodies with
+    | nil =>
+      simp only [List.flatten_nil] at hb2
+      rw [hL] at hb2
+      simp at hb2
+    | cons b0 bs =>
+      rw [indentLines_cons] at hgr ⊢
+      simp only [if_true, List.nil_append] at hgr ⊢
+      simp only [List.flatten_cons] at hb2
+      -- the first body is long enough to hold the `c`
+      have hlen : k + 1 ≤ b0.length := by
+        obtain ⟨g, rest, hgne, hch, hl0, hbound, hrest⟩ := hgr
+        simp only [if_true, List.nil_append, List.length_nil, Nat.zero_add] at hl0 hbound
+        cases rest with
+        | nil =>
+          have hbsn : bs.map ((blanks k ++ [c, ' ']) ++ ·) = [] := by
+            cases hm : bs.map ((blanks k ++ [c, ' ']) ++ ·) with
+            | nil => rfl
+            | cons a as =>
+              rw [hm] at hrest
+              have := grouped_nil_chunks _ _ _ _ _ hrest
+              cases this
+          have : bs = [] := by simpa using hbsn
+          subst this
+          simp only [List.flatten_nil, List.append_nil] at hb2
+          rw [hb2, hL]; simp [blanks]
+        | cons x xs =>
+          have h1 := hbound x rfl
+          have h2 := (hb x (by rw [hch]; simp)).2
+          rw [hplen] at h2
+          rw [← hl0] at h1
+          omega
+      -- so it has the shape of a comment card
+      obtain ⟨r0, hb0, hr0⟩ : ∃ r0, b0 = blanks k ++ c :: r0 ∧ r = r0 ++ bs.flatten := by
+        have heq : b0 ++ bs.flatten = (blanks k ++ [c]) ++ r := by rw [hb2, hL]; simp
+        rcases List.append_eq_append_iff.mp heq with ⟨a', ha1, ha2⟩ | ⟨c', hc1, hc2⟩
+        · have : a' = [] := by
+            have := congrArg List.length ha1
+            simp only [List.length_append, length_blanks, List.length_singleton] at this
+            exact List.eq_nil_of_length_eq_zero (by omega)
+          subst this
+          refine ⟨[], ?_, ?_⟩
+          · simp only [List.append_nil] at ha1; rw [← ha1]
+          · simpa using ha2.symm
+        · exact ⟨c', by rw [hc1]; simp, hc2⟩
+      have hr0s : r0 = [] ∨ ∃ y', r0 = ' ' :: y' := by
+        cases r0 with
+        | nil => exact Or.inl rfl
+        | cons x y' =>
+          right
+          rcases hr with hr | ⟨r', hr'⟩
+          · rw [hr] at hr0; simp at hr0
+          · rw [hr'] at hr0
+            simp only [List.cons_append, List.cons.injEq] at hr0
+            exact ⟨y', by rw [← hr0.1]⟩
+      have hf0 := commentLine_facts k c r0 hk hcC hr0s
+      rw [← hb0] at hf0
+      have hfb : ∀ b, isCommentCard ((blanks k ++ [c, ' ']) ++ b) = true ∧ isBlankLine ((blanks k ++ [c, ' ']) ++ b) = false ∧
+          cw ((blanks k ++ [c, ' ']) ++ b) = [] ∧ cdl ((blanks k ++ [c, ' ']) ++ b) = [] ∧
+          ccm ((blanks k ++ [c, ' ']) ++ b) = sq b := by
+        intro b
+        have := commentLine_facts k c (' ' :: b) hk hcC (Or.inr ⟨b, rfl⟩)
+        simp only [List.append_assoc, List.cons_append, List.nil_append, sq_blank_cons] at this ⊢
+        exact this
+      refine ⟨by simp, ?_, ?_⟩
+      · intro x hx
+        simp only [List.mem_cons, List.mem_map] at hx
+        rcases hx with rfl | ⟨b, _, rfl⟩
+        · exact ⟨hf0.2.1, hf0.1⟩
+        · exact ⟨(hfb b).2.1, (hfb b).1⟩
+      · have hsum : ∀ (l : List Str),
+            ((l.map ((blanks k ++ [c, ' ']) ++ ·)).map cw).flatten = [] ∧
+            ((l.map ((blanks k ++ [c, ' ']) ++ ·)).map cdl).flatten = [] ∧
+            ((l.map ((blanks k ++ [c, ' ']) ++ ·)).map ccm).flatten = sq l.flatten := by
+          intro l
+          induction l with
+          | nil => exact ⟨rfl, rfl, rfl⟩
+          | cons b l ih =>
+            simp only [List.map_cons, List.flatten_cons, (hfb b).2.2.1, (hfb b).2.2.2.1, (hfb b).2.2.2.2, ih.1, ih.2.1,
+              ih.2.2, sq_append, List.nil_append]
+            exact ⟨trivial, trivial, trivial⟩
+        simp only [obsLines, List.map_cons, List.flatten_cons, hf0.2.2.1, hf0.2.2.2.1, hf0.2.2.2.2, (hsum bs).1,
+          (hsum bs).2.1, (hsum bs).2.2, List.nil_append, hLf.2.2.1, hLf.2.2.2.1, hLf.2.2.2.2, hr0, sq_append]
+
 end MontePyVerif.C10
